@@ -168,48 +168,99 @@ type series struct {
 
 const evalDeadline = 30 * time.Second
 
-func (ww *weightWorld) runSeries(s *series) {
-	cc, _ := ww.ctx.CacheContext()
-	ww.setParams(cc, s.p)
-	s.events = append(s.events, map[string]interface{}{"op": "series", "fn": s.fn, "dir": s.dir, "f": s.p.f, "ceil": s.p.ceil,
-		"exp": s.p.exp, "wm": s.p.wm, "mult": s.p.mult, "fixed": s.fixed})
-	for _, x := range s.sweep {
-		stake, count := x, s.fixed
-		if s.dir == "count" {
-			stake, count = s.fixed, x
-		}
-		type result struct {
-			v    *big.Int
-			fail string
-		}
-		ch := make(chan result, 1)
-		go func() {
-			defer func() {
-				if rc := recover(); rc != nil {
-					ch <- result{fail: fmt.Sprintf("panic: %v", rc)}
-				}
-			}()
-			if s.fn == "burn" {
-				ch <- result{v: ww.burn(cc, stake, count)}
-			} else {
-				ch <- result{v: ww.reward(cc, stake, count)}
+// evalPoint evaluates one point of a series on the series' own context (its parameter set).
+func (ww *weightWorld) evalPoint(cc sdk.Context, s *series, x int64) (ev map[string]interface{}, timedOut bool) {
+	stake, count := x, s.fixed
+	if s.dir == "count" {
+		stake, count = s.fixed, x
+	}
+	type result struct {
+		v    *big.Int
+		fail string
+	}
+	ch := make(chan result, 1)
+	go func() {
+		defer func() {
+			if rc := recover(); rc != nil {
+				ch <- result{fail: fmt.Sprintf("panic: %v", rc)}
 			}
 		}()
-		select {
-		case r := <-ch:
-			ev := map[string]interface{}{"op": "eval", "stake": stake, "count": count}
-			if r.fail != "" {
-				ev["fail"], ev["coins"], ev["neg"] = r.fail, []int64{}, false
+		if s.fn == "burn" {
+			ch <- result{v: ww.burn(cc, stake, count)}
+		} else {
+			ch <- result{v: ww.reward(cc, stake, count)}
+		}
+	}()
+	select {
+	case r := <-ch:
+		ev = map[string]interface{}{"op": "eval", "stake": stake, "count": count}
+		if r.fail != "" {
+			ev["fail"], ev["coins"], ev["neg"] = r.fail, []int64{}, false
+		} else {
+			ev["coins"], ev["neg"] = limbs(r.v), r.v.Sign() < 0
+		}
+		return ev, false
+	case <-time.After(evalDeadline):
+		return map[string]interface{}{"op": "timeout", "stake": stake, "count": count, "deadline_s": int(evalDeadline.Seconds())}, true
+	}
+}
+
+// runGroup evaluates sibling series (same function, direction, bin layout and exponent; different
+// weight multiplier / relay multiplier) point by point in turn, the even members ascending and the
+// odd ones descending: the value of a (stake, parameter set) must not depend on what was evaluated
+// before it under another parameter set.  Each series' events are emitted in ascending order.
+func (ww *weightWorld) runGroup(group []*series) {
+	type run struct {
+		s    *series
+		cc   sdk.Context
+		evs  []map[string]interface{}
+		next int
+		dead bool
+	}
+	runs := make([]*run, len(group))
+	for i, s := range group {
+		cc, _ := ww.ctx.CacheContext()
+		ww.setParams(cc, s.p)
+		runs[i] = &run{s: s, cc: cc, evs: make([]map[string]interface{}, len(s.sweep))}
+	}
+	for live := true; live; {
+		live = false
+		for i, r := range runs {
+			if r.dead || r.next >= len(r.s.sweep) {
+				continue
+			}
+			live = true
+			k := r.next
+			if i%2 == 1 {
+				k = len(r.s.sweep) - 1 - r.next
+			}
+			r.next++
+			ev, tmo := ww.evalPoint(r.cc, r.s, r.s.sweep[k])
+			r.evs[k] = ev
+			if tmo {
+				r.dead = true
+				r.s.tmout++
+				// the world may still be in use by the runaway evaluation: give up the whole group
+				for _, o := range runs {
+					o.dead = true
+				}
 			} else {
-				ev["coins"], ev["neg"] = limbs(r.v), r.v.Sign() < 0
+				r.s.evals++
+			}
+		}
+	}
+	for _, r := range runs {
+		s := r.s
+		s.events = append(s.events, map[string]interface{}{"op": "series", "fn": s.fn, "dir": s.dir, "f": s.p.f, "ceil": s.p.ceil,
+			"exp": s.p.exp, "wm": s.p.wm, "mult": s.p.mult, "fixed": s.fixed})
+		for _, ev := range r.evs {
+			if ev == nil {
+				break // abandoned after a timeout (ascending members) ...
 			}
 			s.events = append(s.events, ev)
-			s.evals++
-		case <-time.After(evalDeadline):
-			s.events = append(s.events, map[string]interface{}{"op": "timeout", "stake": stake, "count": count,
-				"deadline_s": int(evalDeadline.Seconds())})
-			s.tmout++
-			return // the world may still be in use by the runaway evaluation
+			if ev["op"] == "timeout" {
+				break
+			}
 		}
 	}
 }
@@ -303,10 +354,10 @@ func traceWeight(out, mode, tier string, cf, cceil int64) {
 			}
 		}
 		cfgs := []gridCfg{
-			{100000000, 400000000, combosA},                                                    // 4 bins (PIP-22 shape)
-			{10000000, 400000000, [][2]int64{{1000, 1000}, {7, 12345}}},                        // 40 bins
+			{100000000, 400000000, combosA},                                                      // 4 bins (PIP-22 shape)
+			{10000000, 400000000, [][2]int64{{1000, 1000}, {7, 12345}}},                          // 40 bins
 			{30000000, 100000000, [][2]int64{{1, 1}, {1000, 1000}, {1000000, 12345}, {7, 1000}}}, // ceiling not a multiple of f
-			{500000000, 500000000, [][2]int64{{1, 1}, {1000, 1000}, {1000000, 12345}}},          // one bin (default parameters' shape)
+			{500000000, 500000000, [][2]int64{{1, 1}, {1000, 1000}, {1000000, 12345}}},           // one bin (default parameters' shape)
 		}
 		for e := int64(0); e <= 100; e++ {
 			if tier != "thorough" && !(e == 0 || e == 100 || e%10 == hx.Seed()%10) {
@@ -345,10 +396,22 @@ func traceWeight(out, mode, tier string, cf, cceil int64) {
 	default:
 		hx.Fatal("unknown mode %q", mode)
 	}
-	// run the series on a pool of worlds, keep the file order deterministic
-	jobs := make(chan *series, len(all))
+	// run the series on a pool of worlds, keep the file order deterministic; sibling series (same
+	// function, direction, bin layout, exponent and fixed value) are evaluated interleaved (runGroup)
+	var groups [][]*series
+	gidx := map[string]int{}
 	for _, s := range all {
-		jobs <- s
+		k := fmt.Sprintf("%s %s %d %d %d %d", s.fn, s.dir, s.p.f, s.p.ceil, s.p.exp, s.fixed)
+		if g, ok := gidx[k]; ok {
+			groups[g] = append(groups[g], s)
+		} else {
+			gidx[k] = len(groups)
+			groups = append(groups, []*series{s})
+		}
+	}
+	jobs := make(chan []*series, len(groups))
+	for _, g := range groups {
+		jobs <- g
 	}
 	close(jobs)
 	var wg sync.WaitGroup
@@ -361,10 +424,13 @@ func traceWeight(out, mode, tier string, cf, cceil int64) {
 		go func() {
 			defer wg.Done()
 			ww := newWeightWorld()
-			for s := range jobs {
-				ww.runSeries(s)
-				if s.tmout > 0 {
-					ww = newWeightWorld()
+			for g := range jobs {
+				ww.runGroup(g)
+				for _, s := range g {
+					if s.tmout > 0 {
+						ww = newWeightWorld()
+						break
+					}
 				}
 			}
 		}()
